@@ -15,7 +15,7 @@ inside (must be found) and known to be outside (must raise / be skipped).
 
 import json, hashlib, traceback, gc, os
 import numpy
-from vlib.runner import Result, rng_for
+from vlib.runner import Result, rng_for, scaled
 
 PROPERTY = 'C11'
 LEVEL = 'exploration'
@@ -36,12 +36,13 @@ ASSUMPTIONS = ['numpy composition of item.linear/item.offset is the reference me
                'locate: targets on element boundaries are only required to be found when eps>0 was requested; outside targets are >=0.25 domain sizes away or gauss points of dropped elements',
                'maxprocs=1 (parallel locate is C16)']
 BUDGET_S = {'quick': int(os.environ.get('C11_BUDGET_QUICK', '110')), 'thorough': int(os.environ.get('C11_BUDGET_THOROUGH', '1500'))}  # env: development on a loaded machine only
-_SCALE = float(os.environ.get('C11_SCALE', '1') or 1)  # development only: run a fraction of the plan with fewer workers
-NSEQ = {'quick': int(640 * _SCALE), 'thorough': int(9000 * _SCALE)}
-NCHAIN = {'quick': int(2000 * _SCALE), 'thorough': int(40000 * _SCALE)}
-NLOC = {'quick': int(280 * _SCALE), 'thorough': int(4000 * _SCALE)}
+# VERIF_SCALE (vlib.runner.scaled) shrinks the plan for development runs; registered commands never set it
+NSEQ = {'quick': scaled(640), 'thorough': scaled(9000)}
+NCHAIN = {'quick': scaled(2000), 'thorough': scaled(40000)}
+NLOC = {'quick': scaled(280), 'thorough': scaled(4000)}
 SEQ_CHUNK, CHAIN_CHUNK, LOC_CHUNK = 5, 125, 4
 NLOOK = 20
+DUP_OPP = 'C11-two-shared-faces-same-opposite'
 ENV = {'NUTILS_NPROCS': '1'}
 
 
@@ -95,7 +96,9 @@ def execute_seq(case, res):
     M.check_sequence(tseq, refs, rng, rep, 'transforms', NLOOK, depth=1, siblings=siblings[:6])
     lookups_before = res.counters.get('lookups', 0)
     if topo.opposites is not tseq:
-        M.check_sequence(topo.opposites, refs, rng, M.Reporter(res, dict(case, part='opposites')), 'opposites', NLOOK // 2, depth=0,
+        mech = DUP_OPP if M.two_faces_same_opposite(tseq, topo.opposites) else None
+        res.count('two_faces_same_opposite_seen', bool(mech))
+        M.check_sequence(topo.opposites, refs, rng, M.Reporter(res, dict(case, part='opposites'), mech), 'opposites', NLOOK // 2, depth=0,
                          siblings=[tuple(tseq[int(k)]) for k in rng.integers(0, len(tseq), 2)])
         res.count('opposites_sequences')
     isvolume = topo.ndims == tseq.todims
@@ -123,7 +126,9 @@ def execute_seq(case, res):
         r2 = M.Reporter(res, dict(case, part=attr))
         M.check_sequence(sub.transforms, sub.references, rng, r2, attr + '.transforms', NLOOK // 2, depth=0)
         if sub.opposites is not sub.transforms:
-            M.check_sequence(sub.opposites, sub.references, rng, M.Reporter(res, dict(case, part=attr + '.opposites')), attr + '.opposites', NLOOK // 2, depth=0,
+            mech = DUP_OPP if M.two_faces_same_opposite(sub.transforms, sub.opposites) else None
+            res.count('two_faces_same_opposite_seen', bool(mech))
+            M.check_sequence(sub.opposites, sub.references, rng, M.Reporter(res, dict(case, part=attr + '.opposites'), mech), attr + '.opposites', NLOOK // 2, depth=0,
                              siblings=[tuple(sub.transforms[int(k)]) for k in rng.integers(0, nsub, 2)])
         M.check_index_coords(topo, sub, rng, r2, attr + ':vs parent', own=False)
         if attr == 'interfaces' or sub.opposites == sub.transforms:
@@ -592,6 +597,19 @@ def repro_manifold_eps_corner():
     return d > 1e-5, f'rectilinear([4,1]).boundary.locate(geom*[.25,1], [[1,.9]], eps=1e-10): the target lies ON the right edge, the returned point is {y.tolist()} (on the top edge) at distance {d:.3g}'
 
 
+def repro_two_shared_faces():
+    from nutils import mesh
+    topo, geom = mesh.line(2, periodic=True)
+    b = topo.subset(topo[:1]).boundary
+    opp = [tuple(c) for c in b.opposites]
+    try:
+        found = [int(b.opposites.index(c)) for c in opp]
+    except ValueError:
+        found = 'ValueError'
+    fails = opp[0] == opp[1] or found != [0, 1]
+    return fails, f'mesh.line(2, periodic=True): b = topo.subset(topo[:1]).boundary; b.transforms = {list(b.transforms)!r}, b.opposites = {opp!r}; [b.opposites.index(c) for c in b.opposites] = {found}'
+
+
 def repro_skip_missing_all():
     from nutils import mesh
     topo, geom = mesh.unitsquare(2, 'square')
@@ -615,7 +633,8 @@ def repro_single_element_line():
 
 
 REPRODUCERS = {'C11-locate-manifold-projection': repro_manifold_zero_step, 'C11-locate-skip-missing-all': repro_skip_missing_all,
-               'C11-locate-single-element-line': repro_single_element_line, 'C11-locate-manifold-eps-corner': repro_manifold_eps_corner}
+               'C11-locate-single-element-line': repro_single_element_line, 'C11-locate-manifold-eps-corner': repro_manifold_eps_corner,
+               DUP_OPP: repro_two_shared_faces}
 
 
 def finalize(m, tier, seed):
@@ -634,6 +653,8 @@ def finalize(m, tier, seed):
                absent_lookups=c.get('absent_lookups', 0), absent_refused=c.get('absent_refused', 0), absent_kinds=group('absent_kind/'),
                absent_resolved_to_equivalent=c.get('absent_resolved_to_equivalent', 0), out_of_scope=group('out_of_scope/'),
                sequences_violating_prefix_precondition=c.get('sequences_violating_prefix_precondition', 0), prefix_precondition_violated_in=sorted(m.sets.get('prefix_precondition_violated_in', ()))[:10],
+               two_faces_same_opposite_seen=c.get('two_faces_same_opposite_seen', 0), f_coords_on_trimmed_elements=c.get('f_coords_on_trimmed_elements', 0),
+               f_coords_outside_trimmed_part_of_element=c.get('f_coords_outside_trimmed_part_of_element', 0),
                boundary_with_ghost_opposites=c.get('boundary_with_ghost_opposites', 0), manifold_eps_outside_not_demanded=c.get('manifold_eps_outside_not_demanded', 0),
                getitem=group('getitem/'), getitem_refused=group('getitem_refused/'), getitem_refused_other=group('getitem_refused_other/'), getitem_accepted=group('getitem_accepted/'),
                derived_sequences=group('derived_sequences/'), derived_topologies=group('derived_topologies/'), chained_sequences=c.get('chained_sequences', 0),
